@@ -47,7 +47,8 @@ type World interface {
 	// Resolve: outcome of field `field` on parent (parentID "" for root fields).
 	Resolve(parentType, parentID, field string, args map[string]any) Out
 	// Guard: outcome of the @guard(k) directive at (parentID, field): KValue = call next,
-	// KNull = answer nil without calling next, KError / KPanic.
+	// KNull = answer nil without calling next, KError / KPanic. For argument directives
+	// (k = 3) the first key is the response path of the field and field is "field.arg".
 	Guard(k int, parentID, field string) Kind
 }
 
@@ -353,6 +354,37 @@ func (e *exec) field(objType string, obj *Obj, c *collected, path string) (strin
 		case KError, KPanic:
 			e.fail(path)
 			return e.nullAt(t, path, true)
+		}
+	}
+	// argument coercion happens before the resolver: a failing custom scalar
+	// or argument directive fails the field (resolver not called)
+	if len(def.Arguments) > 0 {
+		args := argMap(f, e.vars)
+		for _, ad := range def.Arguments {
+			v, present := args[ad.Name]
+			if !present {
+				continue
+			}
+			if g := ad.Directives.ForName("guard"); g != nil {
+				switch e.w.Guard(3, path, f.Name+"."+ad.Name) {
+				case KError:
+					e.fail(path + "." + ad.Name)
+					return e.nullAt(t, path, true)
+				case KPanic:
+					e.fail(path)
+					return e.nullAt(t, path, true)
+				}
+			}
+			if ad.Type.NamedType == "Odd" {
+				switch v {
+				case "bad":
+					e.fail(path + "." + ad.Name)
+					return e.nullAt(t, path, true)
+				case "boom":
+					e.fail(path)
+					return e.nullAt(t, path, true)
+				}
+			}
 		}
 	}
 	// plain fields
